@@ -9,6 +9,8 @@ import (
 	"go.amzn.com/verifh/hx"
 	"go.amzn.com/verifh/stack"
 	"go.amzn.com/verifrt/sched"
+	"go.amzn.com/verifrt/vchan"
+	"go.amzn.com/verifrt/vsync"
 )
 
 func init() {
@@ -53,5 +55,36 @@ func init() {
 			}})
 		}
 		return out
+	}})
+}
+
+func init() {
+	hx.Register(&hx.Property{ID: "S01", Scenarios: func(tier string) []hx.Scenario {
+		return []hx.Scenario{{Name: "hb-litmus", Run: func(c *hx.Ctx) *hx.ScenarioResult {
+			var res string
+			body := func() {
+				ch := make(chan int)
+				var mu vsync.Mutex
+				var a1, a2, b1, b2 sched.Stamp
+				ta := sched.Go("A", func() {
+					a1 = sched.StampNow()
+					vchan.Send(ch, 1)
+					mu.Lock()
+					a2 = sched.StampNow()
+					mu.Unlock()
+				})
+				tb := sched.Go("B", func() {
+					b1 = sched.StampNow()
+					vchan.Recv(ch)
+					b2 = sched.StampNow()
+				})
+				sched.Join(ta)
+				sched.Join(tb)
+				r := sched.StampNow()
+				res = fmt.Sprintf("a1->b2=%v b1->a2=%v a1->b1=%v a2->r=%v b2->r=%v r->a1=%v | a1=%v a2=%v b1=%v b2=%v r=%v", sched.HB(a1, b2), sched.HB(b1, a2), sched.HB(a1, b1), sched.HB(a2, r), sched.HB(b2, r), sched.HB(r, a1), a1, a2, b1, b2, r)
+				sched.Finish()
+			}
+			return hx.ExploreScenario(c, "S01", "hb-litmus", sched.Options{Bound: 3}, body, func(e *sched.Exec) (string, string, *sched.Failure) { return res, res, nil })
+		}}}
 	}})
 }
